@@ -2,6 +2,7 @@ package main
 
 import (
 	"bufio"
+	"encoding/hex"
 	"encoding/json"
 	"flag"
 	"fmt"
@@ -31,6 +32,7 @@ type Event struct {
 	Panic  bool     `json:"panic"`
 	Mut    bool     `json:"mut"`
 	Stages []string `json:"stages"`
+	RawHex []string `json:"rawhex,omitempty"` // the exact argument bytes (expression, then list), when abstraction changed them
 	RawE   string   `json:"-"`
 	RawA   []string `json:"-"`
 }
@@ -60,6 +62,16 @@ func eventOf(o Obs, e string, a []string) Event {
 		Off: -1, Stages: st, RawE: e, RawA: a}
 	if o.Err {
 		ev.Off, ev.Lex = errOffset(o.ErrText)
+	}
+	changed := ev.E != e
+	for i := range a {
+		changed = changed || ev.A[i] != a[i]
+	}
+	if changed {
+		ev.RawHex = append(ev.RawHex, hex.EncodeToString([]byte(e)))
+		for _, x := range a {
+			ev.RawHex = append(ev.RawHex, hex.EncodeToString([]byte(x)))
+		}
 	}
 	return ev
 }
@@ -293,6 +305,8 @@ func (g *gen) call(flavor string, maxLeaves int) Event {
 		f = g.pick([]string{"sat", "sat", "sat", "invalid", "lists", "extract", "extract"})
 	}
 	switch f {
+	case "session":
+		panic("session flavour is driven by sessionEvents")
 	case "case":
 		// case-mutated listed ids in expressions and allowed lists (C09)
 		n := 1 + g.rng.Intn(3)
@@ -424,6 +438,147 @@ func (g *gen) spellCall(pool []string) Event {
 	return eventOf(obsSatisfies(o, a), o, a)
 }
 
+// ------------------------------------------------------------------ sessions
+//
+// A session is a short HISTORY of related calls: the same few ids over and over, in every spelling a
+// cache key might confuse (letter case, '+' / -or-later / -only, LicenseRef twins of listed ids, blank /
+// tab / newline variants, the same string as expression, as allowed entry and as ValidateLicenses
+// element, compound strings as allowed entries), through all three functions.  The specification says
+// every call is a function of its arguments alone; the whole history is one trace, so a result that
+// depends on what was called before is rejected at the event where it shows.
+
+func (g *gen) focusIDs() []string {
+	t := g.t
+	act := map[string]bool{}
+	for _, x := range t.Active {
+		act[x] = true
+	}
+	var depFold, laterListed, bareOnlyPlus, long, dup []string
+	for _, x := range t.Deprecated {
+		if !strings.HasSuffix(x, "+") && act[x+"-or-later"] {
+			depFold = append(depFold, x)
+		}
+	}
+	pos := map[string]int{}
+	for _, f := range t.Ranges {
+		seen := map[string]bool{}
+		for _, st := range f {
+			for _, x := range st {
+				if !seen[x] {
+					pos[x]++
+					seen[x] = true
+				}
+			}
+		}
+	}
+	for x, n := range pos {
+		if n > 1 {
+			dup = append(dup, x)
+		}
+	}
+	sortStrings(dup)
+	for _, x := range t.Active {
+		if strings.HasSuffix(x, "-or-later") {
+			laterListed = append(laterListed, x)
+			base := strings.TrimSuffix(x, "-or-later")
+			if !act[base] && !inList(t.Deprecated, base) {
+				bareOnlyPlus = append(bareOnlyPlus, base) // e.g. GFDL-1.2-invariants: invalid bare, valid with '+'
+			}
+		}
+		if len(x) > 32 {
+			long = append(long, x)
+		}
+	}
+	cats := [][]string{depFold, laterListed, bareOnlyPlus, long, dup, t.Active, t.Active, g.pick2(g.fam), g.pick2(g.fam)}
+	var out []string
+	for len(out) < 2 {
+		c := cats[g.rng.Intn(len(cats))]
+		if len(c) > 0 {
+			out = append(out, g.pick(c))
+		}
+	}
+	// a member of the same table family as the first id (if any), so that range lookups happen
+	for _, f := range g.fam {
+		if inList(f, out[0]) || inList(f, strings.TrimSuffix(out[0], "-or-later")) {
+			out = append(out, g.pick(f))
+			break
+		}
+	}
+	return out
+}
+
+func sortStrings(l []string) {
+	for i := 1; i < len(l); i++ {
+		for j := i; j > 0 && l[j] < l[j-1]; j-- {
+			l[j], l[j-1] = l[j-1], l[j]
+		}
+	}
+}
+
+func (g *gen) idVariants(x string) []string {
+	base := strings.TrimSuffix(strings.TrimSuffix(x, "-or-later"), "-only")
+	v := []string{x, strings.ToLower(x), strings.ToUpper(x), g.caseVariant(x), base, base + "+", strings.ToLower(base) + "+", g.caseVariant(base) + "+",
+		base + "-or-later", base + "-only", strings.ToLower(base) + "-or-later", "LicenseRef-" + x, "LicenseRef-" + strings.ToLower(x), "DocumentRef-" + x + ":LicenseRef-" + x,
+		"(" + x + ")", " " + x, x + " ", x + "\t", x + "\n", "\u00a0" + x}
+	return v
+}
+
+func (g *gen) wsVariant(s string) string {
+	switch g.rng.Intn(6) {
+	case 0:
+		return strings.ReplaceAll(s, " ", "  ")
+	case 1:
+		return strings.Replace(s, " ", "\t", 1)
+	case 2:
+		return strings.Replace(s, " ", "\n", 1)
+	case 3:
+		return strings.ToLower(s)
+	case 4:
+		return swapCase(s)
+	}
+	return s
+}
+
+// sessionEvents: n sessions of about a dozen calls each
+func (g *gen) sessionEvents(n int) []Event {
+	var evs []Event
+	for i := 0; i < n; i++ {
+		ids := g.focusIDs()
+		exc := g.pick(g.t.Exceptions)
+		other := g.pick(g.t.Active)
+		var texts []string
+		for _, x := range ids {
+			texts = append(texts, g.idVariants(x)...)
+		}
+		a, b := ids[0], ids[len(ids)-1]
+		comp := []string{a + " AND " + other, a + " OR " + b, other + " OR LicenseRef-" + a, other + " OR " + a, a + " WITH " + exc, a + "+ WITH " + exc,
+			a + " AND " + a + " WITH " + exc, "(" + a + " OR " + b + ") AND " + other, strings.TrimSuffix(a, "-or-later") + "-or-later AND " + other + "-or-later"}
+		for _, c := range comp {
+			texts = append(texts, c, g.wsVariant(c))
+		}
+		for k := 0; k < 12; k++ {
+			e := g.pick(texts)
+			switch g.rng.Intn(5) {
+			case 0:
+				evs = append(evs, eventOf(obsExtract(e), e, nil))
+			case 1:
+				l := []string{e, g.pick(texts)}
+				evs = append(evs, eventOf(obsValidate(l), "", l))
+			case 2:
+				l := []string{g.pick(texts), g.pick(texts)}
+				if g.rng.Intn(3) == 0 {
+					l = append(l, l[0])
+				}
+				evs = append(evs, eventOf(obsSatisfies(e, l), e, l))
+			default:
+				l := []string{g.pick(texts)}
+				evs = append(evs, eventOf(obsSatisfies(e, l), e, l))
+			}
+		}
+	}
+	return evs
+}
+
 func cmdDrive(args []string) int {
 	fs := flag.NewFlagSet("drive", flag.ExitOnError)
 	seed := fs.Int64("seed", 1, "")
@@ -446,8 +601,18 @@ func cmdDrive(args []string) int {
 	defer w.Flush()
 	enc := json.NewEncoder(w)
 	enc.SetEscapeHTML(false)
+	var pre []Event
+	if *flavor == "session" {
+		pre = g.sessionEvents(*n)
+		*n = len(pre)
+	}
 	for i := 0; i < *n; i++ {
-		ev := g.call(*flavor, *maxLeaves)
+		var ev Event
+		if pre != nil {
+			ev = pre[i]
+		} else {
+			ev = g.call(*flavor, *maxLeaves)
+		}
 		ev.Seq = i + 1
 		if ev.A == nil {
 			ev.A = []string{}
